@@ -135,3 +135,68 @@ Proof.
     exfalso. apply (own_locs_disjoint t u (eop_inst oa) (eop_inst ob) l Hne); auto.
     intros k E1 E2. apply (Hex t u oa ob k Hne Hoa Hob E1 E2).
 Qed.
+
+(* ---- the extracted finite-map replay is the thread-model replay *)
+Local Open Scope Z_scope.
+Lemma loc_eqb_sym a b : loc_eqb a b = loc_eqb b a.
+Proof.
+  destruct (loc_eqb a b) eqn:E.
+  - apply loc_eqb_eq in E. subst. symmetry. apply loc_eqb_eq. reflexivity.
+  - destruct (loc_eqb b a) eqn:E2; [|reflexivity]. apply loc_eqb_eq in E2. subst.
+    assert (loc_eqb a a = true) by (apply loc_eqb_eq; reflexivity). congruence.
+Qed.
+
+Lemma lget_filter l l' ls : loc_eqb l' l = false ->
+  lget (filter (fun kv => negb (loc_eqb (fst kv) l)) ls) l' = lget ls l'.
+Proof.
+  intros H. induction ls as [|[k v] r IH]; [reflexivity|]. cbn [filter fst lget].
+  destruct (loc_eqb k l) eqn:E; cbn [negb lget].
+  - apply loc_eqb_eq in E. subst. rewrite H. exact IH.
+  - rewrite IH. reflexivity.
+Qed.
+
+Lemma lget_lset l v ls l' : lget (lset l v ls) l' = if loc_eqb l' l then v else lget ls l'.
+Proof. unfold lset. cbn [lget]. destruct (loc_eqb l' l) eqn:E; [reflexivity | apply lget_filter; exact E]. Qed.
+
+Lemma lexec_correct st ls l : lget (lexec st ls) l = exec st (lget ls) l.
+Proof.
+  unfold lexec, exec, observe. set (vs := map (lget ls) (reads st)).
+  induction (writes st) as [|w ws IH]; [reflexivity|].
+  cbn [fold_right]. rewrite lget_lset. unfold mem in *. cbn [existsb].
+  destruct (loc_eqb l w) eqn:E.
+  - apply loc_eqb_eq in E. subst. reflexivity.
+  - cbn [orb]. exact IH.
+Qed.
+
+Theorem lreplay_correct : forall tr ls s, (forall l, lget ls l = s l) -> lreplay tr ls = replay tr s.
+Proof.
+  induction tr as [|[t o] r IH]; intros ls s H; [reflexivity|].
+  cbn [lreplay replay].
+  assert (Hobs : map (lget ls) (reads (eop_step t o)) = observe (eop_step t o) s)
+    by (unfold observe; apply map_ext; exact H).
+  rewrite Hobs. f_equal. apply IH. intros l. rewrite lexec_correct. unfold exec, observe.
+  replace (map (lget ls) (reads (eop_step t o))) with (map s (reads (eop_step t o))) by (symmetry; exact Hobs).
+  destruct (mem l (writes (eop_step t o))); [reflexivity | apply H].
+Qed.
+
+(* and, for one thread, the thread-model replay is the error-state model of ErrState.erun *)
+Definition est_rel (t : nat) (s : state) (e : est) : Prop :=
+  (forall i, s (Inst i 1) = fst (e_inst e i) /\ s (Inst i 2) = (if snd (e_inst e i) then 1 else 0)) /\ s (TlsL t 0) = e_tls e.
+
+Lemma replay_is_erun t : forall tr s e, est_rel t s e -> replay (map (pair t) tr) s = snd (erun tr e).
+Proof.
+  induction tr as [|o tr IH]; intros s e [Hi Ht]; [reflexivity|].
+  cbn [map replay erun].
+  assert (Hrel : est_rel t (exec (eop_step t o) s) (fst (estep o e))).
+  { destruct o; cbn [estep fst eop_step]; split; try intros j; unfold exec, mem; cbn [writes reads existsb loc_eqb sem e_inst e_tls];
+      unfold upd_inst; rewrite ?Nat.eqb_refl, ?andb_true_r, ?andb_false_r, ?orb_false_r; cbn [orb andb];
+      try (destruct (Nat.eqb j i) eqn:E; cbn [fst snd orb andb]; try (apply Nat.eqb_eq in E; subst);
+           try (destruct (Hi j) as [H1 H2]); try (destruct (Hi i) as [H1 H2]); auto);
+      try (destruct (Hi j) as [H1 H2]; auto); try exact Ht; try reflexivity. }
+  destruct (estep o e) as [e1 r] eqn:E. cbn [fst] in Hrel.
+  specialize (IH _ _ Hrel). destruct (erun tr e1) as [e2 rs] eqn:E2. cbn [snd] in *.
+  destruct o; cbn in E; inversion E; subst; cbn [is_query app]; try reflexivity.
+  - (* EGet *) f_equal. unfold observe. cbn [eop_step reads map decode_get].
+    destruct (Hi i) as [H1 H2]. rewrite H1, H2, Ht. match goal with |- context [snd (e_inst ?x i)] => destruct (snd (e_inst x i)) end; reflexivity.
+  - (* EGetTls *) f_equal. unfold observe. cbn [eop_step reads map decode_get]. exact Ht.
+Qed.
